@@ -147,6 +147,8 @@ def build(ctx):
                 ctx.add(core.valid('%s/path%d/idempotent-second-call-writes-nothing' % (name, pi), list(s.pc) + pre2 + [SP.grp_cancelled(base, bb.v, gg)], z3.BoolVal(False)))
         ctx.add(core.satisfiable('%s/vacuity/some-path-cancels' % name, z3.Or(*wrote) if wrote else z3.BoolVal(False)))
 
+    from contracts import sqlspec as _SP
+    _SP.engine_obligations(ctx, ex)
     ctx.assume('each procedure call is atomic (serialisable isolation); MySQL NULL/boolean semantics as encoded in vc/sqlvc.py')
     ctx.assume('structural invariant A1 used as precondition of cancel_*: (b,g,g) is in job_group_self_and_ancestors for every group and the root group 0 has no other ancestor (established where groups are created; see C08)')
     ctx.assume('jobs.always_run, jobs.cancelled, jobs.job_group_id are NOT NULL columns (schema replayed from the migrations)')
